@@ -188,6 +188,9 @@ def importShapeB (cs : List ANode) : Bool :=
   (importFlattened cs).all (fun x => isImportItem x || isCommentKind x.kind || isIgnorable x) &&
   (sortedB importSortKey ((importFlattened cs).filter isImportItem) || !importSortable (importFlattened cs))
 
+/-- The body of the code block is marked `@typstyle off`: the whole block is emitted verbatim. -/
+def codeBodyDisabled (cs : List ANode) : Bool := ((cs.find? (·.kind == .code)).map (·.attrs.disabled)).getD false
+
 /-- `break` / `continue`: one keyword leaf. -/
 def loopShapeB (cs : List ANode) : Bool :=
   match cs with
@@ -208,7 +211,7 @@ def inFrag : ANode → Bool
   | .leaf k t a => ANode.tokensAreLeaves (.leaf k t a) && (!k.isExpr || k.isFragLeaf || (k == .parbreak && !a.disabled) || k == .none_ || k == .auto_) && (!k.isInnerKind || ((k == .markup || k == .code || k == .importItems) && t == ""))
   | .inner k cs _ =>
     ((k.isFragFlow || k.isFragElem || (k.isFragList && listChildrenOK k cs) || k == .code ||
-      ((k.isFragWrap || k == .markup || k == .args || k == .funcCall || k == .params || k == .destructuring || k == .raw || k == .ref) && listChildrenOK k cs) || k.isFragItem || k == .setRule || k == .closure || k == .forLoop || (k == .binary && binChildrenOK cs) || (k == .fieldAccess && dotChildrenOK cs) || k.isImportPart || (k == .moduleImport && importShapeB cs) || ((k == .loopBreak || k == .loopContinue) && loopShapeB cs)) || (k == .equation && eqShapeB cs)) &&
+      ((k.isFragWrap || k == .markup || k == .args || k == .funcCall || k == .params || k == .destructuring || k == .raw || k == .ref) && listChildrenOK k cs) || k.isFragItem || k == .setRule || k == .closure || k == .forLoop || (k == .binary && binChildrenOK cs) || (k == .fieldAccess && dotChildrenOK cs) || k.isImportPart || (k == .moduleImport && importShapeB cs) || ((k == .loopBreak || k == .loopContinue) && loopShapeB cs) || (k == .codeBlock && codeBodyDisabled cs)) || (k == .equation && eqShapeB cs)) &&
       (if k == .equation then inFragEq cs else inFragL cs)
 def inFragL : List ANode → Bool
   | [] => true
@@ -258,13 +261,13 @@ theorem inFrag_inner_eq (cs : List ANode) (a : Attrs) :
 theorem inFrag_inner_ne (k : Kind) (cs : List ANode) (a : Attrs) (hk : k ≠ .equation) :
     inFrag (.inner k cs a) =
       ((k.isFragFlow || k.isFragElem || (k.isFragList && listChildrenOK k cs) || k == .code ||
-      ((k.isFragWrap || k == .markup || k == .args || k == .funcCall || k == .params || k == .destructuring || k == .raw || k == .ref) && listChildrenOK k cs) || k.isFragItem || k == .setRule || k == .closure || k == .forLoop || (k == .binary && binChildrenOK cs) || (k == .fieldAccess && dotChildrenOK cs) || k.isImportPart || (k == .moduleImport && importShapeB cs) || ((k == .loopBreak || k == .loopContinue) && loopShapeB cs)) && inFragL cs) := by
+      ((k.isFragWrap || k == .markup || k == .args || k == .funcCall || k == .params || k == .destructuring || k == .raw || k == .ref) && listChildrenOK k cs) || k.isFragItem || k == .setRule || k == .closure || k == .forLoop || (k == .binary && binChildrenOK cs) || (k == .fieldAccess && dotChildrenOK cs) || k.isImportPart || (k == .moduleImport && importShapeB cs) || ((k == .loopBreak || k == .loopContinue) && loopShapeB cs) || (k == .codeBlock && codeBodyDisabled cs)) && inFragL cs) := by
   have : (k == Kind.equation) = false := by simpa using hk
   simp only [inFrag, this, Bool.false_and, Bool.or_false, Bool.false_eq_true, ↓reduceIte]
 
 theorem fragKind_inner (k : Kind) (cs : List ANode)
     (h : (k.isFragFlow || k.isFragElem || (k.isFragList && listChildrenOK k cs) || k == .code ||
-      ((k.isFragWrap || k == .markup || k == .args || k == .funcCall || k == .params || k == .destructuring || k == .raw || k == .ref) && listChildrenOK k cs) || k.isFragItem || k == .setRule || k == .closure || k == .forLoop || (k == .binary && binChildrenOK cs) || (k == .fieldAccess && dotChildrenOK cs) || k.isImportPart || (k == .moduleImport && importShapeB cs) || ((k == .loopBreak || k == .loopContinue) && loopShapeB cs)) = true) : k.isInnerKind = true := by
+      ((k.isFragWrap || k == .markup || k == .args || k == .funcCall || k == .params || k == .destructuring || k == .raw || k == .ref) && listChildrenOK k cs) || k.isFragItem || k == .setRule || k == .closure || k == .forLoop || (k == .binary && binChildrenOK cs) || (k == .fieldAccess && dotChildrenOK cs) || k.isImportPart || (k == .moduleImport && importShapeB cs) || ((k == .loopBreak || k == .loopContinue) && loopShapeB cs) || (k == .codeBlock && codeBodyDisabled cs)) = true) : k.isInnerKind = true := by
   cases k <;> simp_all [Kind.isFragFlow, Kind.isFragElem, Kind.isFragList, Kind.isFragWrap, Kind.isFragItem, Kind.isImportPart, Kind.isInnerKind]
 
 mutual
@@ -1075,6 +1078,25 @@ theorem convExpr_frag (e : Env) (r : Rec) (hr : RecOK r Q) (hrM : RecOKM r QM) (
         · cases m with
           | inner _ _ _ => simp at hch
           | leaf km tm am => cases km <;> simp at hch
+      by_cases hcbv : k = .codeBlock ∧ codeBodyDisabled cs = true
+      · -- a code block whose body is marked: verbatim
+        obtain ⟨rfl, hbd⟩ := hcbv
+        show Post (convCodeBlock e r ctx _) _
+        unfold convCodeBlock
+        unfold codeBodyDisabled at hbd
+        simp only [ANode.children, hbd, ↓reduceIte]
+        have hv : isVerbatimNode .codeBlock cs a = true := by
+          unfold isVerbatimNode; simp [hbd]
+        refine Post.pure ((Carries.mkText e.wd .verbatim _).congr ?_)
+        apply Streams.ext' <;>
+          simp [specAll, specToks, specCmts, specProse, specLit, specVerb, hv, tagS, Pretty.charsOf, ANode.intoText, Pretty.keepOf]
+      have hcbv' : (k == .codeBlock && codeBodyDisabled cs) = false := by
+        cases hkc : (k == .codeBlock) with
+        | false => rfl
+        | true =>
+          cases hbc : codeBodyDisabled cs with
+          | false => rfl
+          | true => exact absurd ⟨by simpa using hkc, hbc⟩ hcbv
       by_cases hloopk : k = .loopBreak ∨ k = .loopContinue
       · have hsh : loopShapeB cs = true := by
           have h1 := hq.1
